@@ -1,6 +1,6 @@
 (* C17 - Generated pkg-config files give consumers the declared flags and requirements.
    Only statements; proofs live in theories/Misc. *)
-From BFG Require Import Base.Chars Misc.Versions Misc.VersionsProofs.
+From BFG Require Import Base.Chars Shell.PosixQuote Shell.Sh Misc.Versions Misc.VersionsProofs Misc.PcFile Misc.PcFileProofs.
 From Coq Require Import String.
 
 (* A total preorder of versions: [veqb] is identity of the printed form, [leb] the version order
@@ -76,7 +76,44 @@ Theorem C17_single : forall V veqb leb kleb fixed r l,
 Proof. exact req_split_single. Qed.
 Print Assumptions C17_single.
 
+(* ---- .pc fields ---- *)
+(* wherever the sh model accepts a line as a list of words, pkgconf's argument splitter yields the same
+   non-empty words (single quotes, backslash outside quotes, blanks; every Unicode classification) *)
+Theorem C17_pc_argv_of_sh : forall uw s ws, sh_words uw s = Some ws -> pc_argv s = Some (filter nonempty ws).
+Proof. exact pc_argv_of_sh. Qed.
+Print Assumptions C17_pc_argv_of_sh.
+
+(* the field round trip for option strings (partial: guarded by pc_clean on the written text; flags that contain
+   a path under a root variable are covered by the correspondence and by real pkg-config only):
+   comment stripping, variable substitution and argument splitting give back exactly the options *)
+Theorem C17_fields_rt_partial : forall uw vars flags,
+  forallb nonempty flags = true ->
+  pc_clean (write_each uw true [c_sp] (map (fun s => [FStr s]) flags)) = true ->
+  pc_argv (pc_subst vars (pc_comment false (write_each uw true [c_sp] (map (fun s => [FStr s]) flags)))) = Some flags.
+Proof. exact fields_rt. Qed.
+Print Assumptions C17_fields_rt_partial.
+
+(* outside the guard it fails: -DX=a#b -DY is read as nothing, -DW=${p} as -DW=<value of p> *)
+Theorem C17_fields_rt_refuted :
+  pc_field [] (write_each (fun _ => false) true [c_sp] [[FStr (STR "-DX=a#b")]; [FStr (STR "-DY")]]) = None /\
+  pc_field [(STR "p", STR "/u")] (write_each (fun _ => false) true [c_sp] [[FStr (STR "-DW=${p}")]])
+    = Some [STR "-DW=/u"].
+Proof. exact (conj fields_rt_hash_refuted fields_rt_dollar_brace_refuted). Qed.
+Print Assumptions C17_fields_rt_refuted.
+
 (* non-vacuity *)
+Example C17_fields_ex :
+  let flags := [STR "-DX=a b"; STR "-DQ='q'"; STR "-DY=$z"; STR "it's"; STR "-I/opt/my inc"] in
+  pc_clean (write_each (fun _ => false) true [c_sp] (map (fun s => [FStr s]) flags)) = true /\
+  pc_field [] (write_each (fun _ => false) true [c_sp] (map (fun s => [FStr s]) flags)) = Some flags.
+Proof. split; vm_compute; reflexivity. Qed.
+
+Example C17_path_flag_ex :
+  pc_field [(STR "includedir", STR "/o p/include")]
+    (write_each (fun _ => false) true [c_sp] [[FStr (STR "-I"); FPath (Some (STR "includedir")) (STR "a 'b")]])
+  = Some [STR "-I/o p/include/a 'b"].
+Proof. vm_compute. reflexivity. Qed.
+
 Example C17_order_inhabited : version_order str str_eqb sv_leb.
 Proof. exact (conj str_eqb_eq (conj sv_leb_total sv_leb_trans)). Qed.
 
